@@ -1,6 +1,6 @@
 // U06 (Kani rendering) — the real `distribute_partition` text against the real arrayvec crate.
 // Loop bound 12 (MAX_REPLICATION_FACTOR) is a constant of the code; unwind(13) with unwinding
-// assertions on makes this harness complete for the whole u16 x u16 x u8 input space.
+// assertions on makes these harnesses complete for the whole u16 x u16 x u8 input space.
 #![allow(unused)]
 use std::cmp;
 use arrayvec::ArrayVec;
@@ -14,45 +14,61 @@ use arrayvec::ArrayVec;
 mod verif {
     use super::*;
 
-    fn spec_jump(n: u32) -> u32 {
-        if n <= 2 { 1 } else {
-            let c = n / 2 + 1;
-            if n % 2 == 0 && c % 2 == 0 { c + 1 } else { c }
-        }
-    }
-
     #[kani::proof]
     #[kani::unwind(13)]
-    fn check_distribute_partition() {
+    fn check_len_first() {
         let h: u16 = kani::any();
         let n: u16 = kani::any();
         let rf: u8 = kani::any();
-//@carve KF-C24-overflow         kani::assume(n == 0 || (n as u32 - 1 + spec_jump(n as u32)) <= 65535);
         let r = distribute_partition(h, n, rf);
         let expect = if n == 0 || rf == 0 { 0 } else { cmp::min(rf as usize, cmp::min(n as usize, 12)) };
         assert!(r.len() == expect, "length is min(rf, n, 12)");
         if expect > 0 {
             assert!(r[0] == h % n, "first element is hash mod n");
         }
-        let mut i = 0;
-        while i < r.len() {
-            assert!(r[i] < n, "every id is below n");
-            let mut j = 0;
-            while j < i {
-                assert!(r[j] != r[i], "ids are pairwise distinct");
-                j += 1;
-            }
-            i += 1;
-        }
-        if rf > 0 {
-            let r2 = distribute_partition(h, n, rf - 1);
-            assert!(r2.len() <= r.len(), "smaller rf gives a prefix (length)");
-            let mut i = 0;
-            while i < r2.len() {
-                assert!(r2[i] == r[i], "smaller rf gives a prefix (elements)");
-                i += 1;
-            }
-        }
         kani::cover!(r.len() == 12, "reachable: full-length result");
+    }
+
+    #[kani::proof]
+    #[kani::unwind(13)]
+    fn check_bounds() {
+        let h: u16 = kani::any();
+        let n: u16 = kani::any();
+        let rf: u8 = kani::any();
+        let r = distribute_partition(h, n, rf);
+        let i: usize = kani::any();
+        kani::assume(i < r.len());
+        assert!(r[i] < n, "every id is below n");
+        kani::cover!(i == 11, "reachable: last index");
+    }
+
+    #[kani::proof]
+    #[kani::unwind(13)]
+    fn check_distinct() {
+        let h: u16 = kani::any();
+        let n: u16 = kani::any();
+        let rf: u8 = kani::any();
+        let r = distribute_partition(h, n, rf);
+        let i: usize = kani::any();
+        let j: usize = kani::any();
+        kani::assume(i < j && j < r.len());
+        assert!(r[i] != r[j], "ids are pairwise distinct");
+        kani::cover!(j == 11, "reachable: last pair");
+    }
+
+    #[kani::proof]
+    #[kani::unwind(13)]
+    fn check_prefix() {
+        let h: u16 = kani::any();
+        let n: u16 = kani::any();
+        let rf: u8 = kani::any();
+        kani::assume(rf > 0);
+        let r = distribute_partition(h, n, rf);
+        let r2 = distribute_partition(h, n, rf - 1);
+        assert!(r2.len() <= r.len(), "smaller rf gives a prefix (length)");
+        let i: usize = kani::any();
+        kani::assume(i < r2.len());
+        assert!(r2[i] == r[i], "smaller rf gives a prefix (elements)");
+        kani::cover!(r2.len() == 11, "reachable: long prefix");
     }
 }
